@@ -36,7 +36,7 @@ def has_mod(sx):
     return isinstance(sx, list) and ((sx and sx[0] == "mod") or any(has_mod(x) for x in sx[1:]))
 
 
-def classify(drv, sx, env, got, want, S):
+def classify(drv, sx, env, got, want, S, prov=(True, True)):
     """is the wrong value the one the typed C evaluator predicts for a right-hand side outside the
     safe fragment?  -> known-finding id or None"""
     r = drv.ask(["cevalenv", [[k, float(v)] for k, v in env.items()], [sx]])["values"][0]
@@ -44,7 +44,14 @@ def classify(drv, sx, env, got, want, S):
     if safe:
         return None
     if close(got, cv, S, 1e-12) or (got != got and cv != cv):
-        return "C02-fmod-sign-of-dividend" if has_mod(sx) and close(rv, cv, S) is False and _only_mod_differs(drv, sx, env, S) else "C02-integer-constant-division"
+        key = "C02-fmod-sign-of-dividend" if has_mod(sx) and close(rv, cv, S) is False and _only_mod_differs(drv, sx, env, S) else "C02-integer-constant-division"
+        # the listed findings are about constructs of the model text; an integer quotient / fmod that the text does not
+        # contain (e.g. one the printer invents for a rational coefficient) is something else
+        if key == "C02-fmod-sign-of-dividend" and not prov[1]:
+            return None
+        if key == "C02-integer-constant-division" and not prov[0]:
+            return None
+        return key
     return None
 
 
@@ -86,7 +93,50 @@ def c_skeleton(stmts):
     return out
 
 
+def _leaves(e):
+    if isinstance(e, tuple):
+        if e[0] in ("num", "var", "pi"):
+            yield e
+        else:
+            for x in e[1:]:
+                if isinstance(x, (tuple, list)):
+                    for y in (x if isinstance(x, list) else [x]):
+                        yield from _leaves(y)
+
+
+def _int_only(e):
+    ls = list(_leaves(e))
+    return bool(ls) and all(l[0] == "num" and lang.lit_is_int(l[1]) for l in ls)
+
+
+def _has_int_quotient(e):
+    if isinstance(e, tuple):
+        if e[0] == "bin" and e[1] == "/" and _int_only(e[2]) and _int_only(e[3]):
+            return True
+        return any(_has_int_quotient(y) for x in e[1:] if isinstance(x, (tuple, list)) for y in (x if isinstance(x, list) else [x]))
+    return False
+
+
+def _has_mod_ast(e):
+    if isinstance(e, tuple):
+        if e[0] == "mod":
+            return True
+        return any(_has_mod_ast(y) for x in e[1:] if isinstance(x, (tuple, list)) for y in (x if isinstance(x, list) else [x]))
+    return False
+
+
+def text_provenance(drv, m):
+    """which of the two numeric findings can the *model text* cause?  (int_quotient, has_mod): some definition or
+    declared value of the model, as written, contains a quotient both of whose operands are built from integer
+    literals only (1/4, (2*3)/4, 1/(1 + abs(1)) - sympy folds such operands into integers) / a Mod.  A wrong value in a
+    model without such a construct is not one of the listed findings, whatever the generated C looks like."""
+    defs, stv, pav = lang.model_defs(m)
+    es = list(defs.values()) + list(stv.values()) + list(pav.values())
+    return any(_has_int_quotient(e) for e in es), any(_has_mod_ast(e) for e in es)
+
+
 def check_model(rep, drv, gen, rng, m, text, c, use_clang):
+    prov_unsafe, prov_mod = text_provenance(drv, m)
     lay = c.impl_layout()
     ss, pn = lay["sorted_states"], lay["params"]
     n = len(ss)
@@ -133,7 +183,7 @@ def check_model(rep, drv, gen, rng, m, text, c, use_clang):
                 if not close(float(arr[i]), want, abs(want)):
                     key = None
                     try:
-                        key = classify(drv, cparse.parse_expr(stm[i]), {}, float(arr[i]), want, abs(want))
+                        key = classify(drv, cparse.parse_expr(stm[i]), {}, float(arr[i]), want, abs(want), (prov_unsafe, prov_mod))
                     except Exception:  # noqa: BLE001
                         pass
                     rep.violation(f"C {fname}: {x} is declared as {want!r} but slot {i} is set to {arr[i]!r}  ({stm.get(i)})",
@@ -169,7 +219,7 @@ def check_model(rep, drv, gen, rng, m, text, c, use_clang):
             envr = dict(pt["states"]); envr.update(pt["params"]); envr["t"] = pt["t"]; envr.update(ref)
             for (nm, sx) in sxs:
                 if not close(got[nm], ref[nm], S):
-                    key = classify(drv, sx, envr, got[nm], ref[nm], S)
+                    key = classify(drv, sx, envr, got[nm], ref[nm], S, (prov_unsafe, prov_mod))
                     if key is None:
                         # wrong only because an earlier (already reported) name is wrong?
                         r2 = drv.ask(["cevalenv", [[k, float(v)] for k, v in envr.items()], [sx]])["values"][0]
@@ -196,7 +246,7 @@ def check_model(rep, drv, gen, rng, m, text, c, use_clang):
                             # linearisations may contain integer quotients, too
                             rep.violation(f"C {sch} slot {i} ({x}) = {ev[i]!r}, numpy module gives {pv[i]!r}",
                                           {"kind": "direct", "text": text, "inputs": pt, "scheme": sch},
-                                          finding_key="C02-integer-constant-division" if _scheme_has_int_quotient(fns, sch, drv) else None)
+                                          finding_key="C02-integer-constant-division" if (prov_unsafe and _scheme_has_int_quotient(fns, sch, drv)) else None)
                             nfound += 1
                             break
         return nfound
